@@ -101,6 +101,7 @@ package tor
 //@   ensures  [only]  t.infoComplete != old(t.infoComplete) ==> $r0
 //@   ensures  [keep]  old(t.infoComplete) == 0 && t.Info != nil && samearr_(t.Info, old(t.Info)) ==> forall x int :: 0 <= x && x < len(t.Info) && (x < int(index)*16384 || x >= int(index)*16384+len(data)) ==> t.Info[x] == old(t.Info[x])
 //@   ensures  [nodup] old(t.infoComplete) == 0 && old(InfoBit(t, int(index))) && t.Info != nil && samearr_(t.Info, old(t.Info)) ==> forall x int :: 0 <= x && x < len(t.Info) ==> t.Info[x] == old(t.Info[x])
+//@   ensures  [beyond] old(t.infoComplete) == 0 && int(index)*16384 >= old(len(t.Info)) ==> $r1 != nil
 //@   ensures  [reset] $r1 != nil && old(t.infoComplete) == 0 && !samearr_(t.Info, old(t.Info)) ==> t.Info == nil && t.infoBitmap == nil && t.infoRequested == nil && t.infoComplete == 0
 //@   loop 1
 //@     invariant 0 <= i && i <= chunks
@@ -523,8 +524,13 @@ package tor
 //@   loop 5
 //@     invariant i <= chunks && Ghost_n == int(i)
 //@   assertcall [setconf] DelIdle :: typeis_[peer.TorSetConf](c) ==> t.useTrackers == as_[peer.TorSetConf](c).Conf.UseTrackers && t.useWebseeds == as_[peer.TorSetConf](c).Conf.UseWebseeds && t.dhtMode == as_[peer.TorSetConf](c).Conf.DhtMode
+// ... and every SetConf that is acknowledged passes through that point (no early
+// way out of the arm that leaves a switch as it was).
+//@   ghostvar Ghost_delidle bool
+//@   atcall   (*Requested).DelIdle :: true :: Ghost_delidle = true
+//@   ensures  [setconfpost] typeis_[peer.TorSetConf](c) && $r0 == nil ==> Ghost_delidle
 //@   splitreturn
-//@   focus    post:dropall, post:dataall, assert:setconf
+//@   focus    post:dropall, post:dataall, assert:setconf, post:setconfpost
 //@   props    C09 C18
 
 // noteAvailable: the availability of exactly the named piece moves by one
